@@ -22,6 +22,7 @@ MACROS = {  # conditional-compilation symbols that may guard code in the anchore
     "XALAN_OBJECT_CACHE_KEEP_BUSY_LIST": False,
     "XALAN_NO_DEFAULT_TEMPLATE_ARGUMENTS": False,
     "XALAN_USE_ICU": True,
+    "XALAN_NODESORTER_CACHE_XOBJECTS": False,        # commented out in NodeSorter.hpp; checked by check_undefined
     "NDEBUG": True,
 }
 
@@ -478,6 +479,29 @@ def gen_api():
     gi = try_stmts.index("SGuard")
     decl_before_guard = all(re.search(d, " ".join(try_stmts_txt[:gi])) for d in (r"XSLTEngineImpl\s+theProcessor\s*\(",))
 
+    # NodeSorter (m_nodeSorter is classified "scratch"): its key-value caches and its scratch vector are
+    # emptied by CollectionClearGuard objects declared BEFORE the code that can throw (key evaluation
+    # inside std::stable_sort), so they are empty again on every exit, also when a sort key raises an error
+    ns = strip_comments(read("XSLT/NodeSorter.cpp"))
+    ns_sort1 = function_body(ns, r"\bNodeSorter::sort\s*\(\s*StylesheetExecutionContext\s*&\s*\w+\s*\)\s*\{", "NodeSorter::sort(context)")
+    ns_sort2 = function_body(ns, r"\bNodeSorter::sort\s*\(\s*StylesheetExecutionContext\s*&\s*\w+\s*,\s*MutableNodeRefList\s*&\s*\w+\s*\)\s*\{", "NodeSorter::sort(context, list)")
+
+    def guarded_before(body, member, marker):
+        g = re.search(r"CollectionClearGuard\s*<[^>]*>\s+\w+\s*\(\s*%s\s*\)\s*;" % member, body)
+        mk = re.search(marker, body)
+        if mk is None:
+            raise AnchorError("NodeSorter::sort: '%s' not found" % marker)
+        return g is not None and g.start() < mk.start()
+    sorter_guards = [("m_numberResultsCache", guarded_before(ns_sort1, "m_numberResultsCache", r"\bstable_sort\s*\(")),
+                     ("m_stringResultsCache", guarded_before(ns_sort1, "m_stringResultsCache", r"\bstable_sort\s*\(")),
+                     ("m_scratchVector", guarded_before(ns_sort2, "m_scratchVector", r"m_scratchVector\s*\.\s*(reserve|push_back)\s*\("))]
+    nsh = members_of("XSLT/NodeSorter.hpp", "NodeSorter")
+    known_ns = {"m_numberResultsCache", "m_stringResultsCache", "m_scratchVector", "m_keys"}
+    if {n for n, _ in nsh} != known_ns:
+        raise AnchorError("NodeSorter has data members the audit does not know: %s" % sorted({n for n, _ in nsh} ^ known_ns))
+    if re.search(r"^\s*#\s*define\s+XALAN_NODESORTER_CACHE_XOBJECTS", read("XSLT/NodeSorter.hpp"), re.M):
+        raise AnchorError("XALAN_NODESORTER_CACHE_XOBJECTS is defined: NodeSorter has a third cache")
+
     # XalanObjectStackCache::reset()
     osc = strip_comments(read("Include/XalanObjectStackCache.hpp"))
     osc_reset = function_body(osc, r"\breset\s*\(\s*\)\s*\{", "XalanObjectStackCache::reset")
@@ -513,7 +537,9 @@ def gen_api():
     out += "Definition transformer_reset_resets_context : bool := %s.\n" % ("true" if tr_resets_ctx else "false")
     out += "Definition ensure_reset_dtor_resets_context : bool := %s.\n" % ("true" if er_ctx else "false")
     out += "Definition ensure_reset_dtor_resets_transformer : bool := %s.\n" % ("true" if er_tr else "false")
-    out += "Definition objstack_reset_rewinds : bool := %s.\n\n" % ("true" if rewinds else "false")
+    out += "Definition objstack_reset_rewinds : bool := %s.\n" % ("true" if rewinds else "false")
+    out += "(* NodeSorter: member emptied by a CollectionClearGuard declared before the code that can throw? *)\n"
+    out += "Definition nodesorter_guarded : list (name * bool) := [%s].\n\n" % "; ".join('("%s", %s)' % (n, "true" if b else "false") for n, b in sorter_guards)
     out += "(* (c) doTransform: statements before the try block and at the top level of the try block *)\n"
     out += "Definition dotransform_pre_stmts : list stmt := [%s].\n" % "; ".join(pre_stmts)
     out += "Definition dotransform_try_stmts : list stmt := [%s].\n" % "; ".join(try_stmts)
